@@ -62,7 +62,7 @@ def value_for(kind, hint):
 def body_for(kind, hint):
     M = getattr(models, "BodyModel", None)
     F = getattr(models, "FormModel", None)
-    if kind in ("json", "vnd+json", "json|form:json"):
+    if kind in ("json", "vnd+json", "json|form:json", "json;param"):
         return M.from_dict({"v": 1, "name": "n"})
     if kind == "jsonarr":
         return [M.from_dict({"v": 1, "name": "n"}), M.from_dict({"v": 2, "name": "m"})]
